@@ -318,6 +318,27 @@ func (c17) Run(c *run.Ctx, phase, idx int) {
 					}
 					dp := res.Pkt.(*mq.Subscribe)
 					c17Judge(c, "Subscribe", cell, "wire", want, dp.WellFormed, dp.String, det)
+					if subID >= 0 && opt%64 == 1 {
+						// the same frame with the subscription identifier written
+						// twice (a decoder may refuse it; if it takes it, the
+						// packet is judged by the values its accessors report)
+						a2 := *a
+						a2.Props = []ref.Prop{{ID: 0x0b, N: uint32(subID)}, {ID: 0x26, S: "k", V: "v"}, {ID: 0x0b, N: uint32(subID)}}
+						f2, _ := ref.Encode(&a2)
+						if res2 := libRead(f2); res2.Accepted() {
+							if d2, ok := res2.Pkt.(*mq.Subscribe); ok {
+								w2 := len(d2.Filters()) == 0 || d2.SubscriptionID() > 268435455
+								for _, tf := range d2.Filters() {
+									if tf.Filter() == "" || uint8(tf.Options())&3 == 3 {
+										w2 = true
+									}
+								}
+								c17Judge(c, "Subscribe", cell, "wire+identifier-twice", w2, d2.WellFormed, d2.String, map[string]interface{}{"cell": cell, "frame": hexClip(f2, 256)})
+							}
+						} else {
+							c.Count("skipped", "identifier-twice-refused-by-decoder", 1)
+						}
+					}
 				}
 			}
 			c.Tick()
